@@ -118,6 +118,7 @@ package nexus
 //@   ensures [measure_does_not_grow] pm(p) <= old(pm(p))
 //@   ensures [a_token_other_than_EOF_decreases_the_measure] tok != EOF ==> pm(p) < old(pm(p))
 //@   loop 1
+//@     complete [all_iterations_no_early_exit]
 //@     assigns stream(p.s.r), p.buf
 //@     invariant [well_formed] pw(p) && p.buf.n == 0 && p.s == old(p.s) && p.s.r == old(p.s.r)
 //@     invariant [progress] pm(p) <= old(pm(p)) && (tok != EOF ==> pm(p) < old(pm(p))) && (pm(p) < old(pm(p)) || (old(pm(p)) == 0 && tok == EOF))
@@ -131,6 +132,7 @@ package nexus
 //@   ensures [end_of_input_inside_a_comment_is_an_error] old(pm(p)) == 0 && curtoken == OPENBRACK ==> err != nil
 //@   ensures [measure_does_not_grow] pm(p) <= old(pm(p))
 //@   loop 1
+//@     complete [all_iterations_no_early_exit]
 //@     assigns stream(p.s.r), p.buf
 //@     invariant [well_formed] pw(p) && p.s == old(p.s) && p.s.r == old(p.s.r)
 //@     invariant [measure_does_not_grow] pm(p) <= old(pm(p)) && pm(p) <= lold(pm(p))
@@ -145,6 +147,7 @@ package nexus
 //@   ensures [end_of_input_is_an_error] old(pm(p)) == 0 ==> err != nil
 //@   ensures [measure_does_not_grow] pm(p) <= old(pm(p))
 //@   loop 1
+//@     complete [all_iterations_no_early_exit]
 //@     assigns stream(p.s.r), p.buf
 //@     invariant [well_formed] pw(p) && p.s == old(p.s) && p.s.r == old(p.s.r)
 //@     invariant [measure_does_not_grow] pm(p) <= old(pm(p)) && pm(p) <= lold(pm(p))
@@ -167,6 +170,7 @@ package nexus
 //@   ensures [end_of_input_is_an_error] old(pm(p)) == 0 ==> result != nil
 //@   ensures [measure_does_not_grow] pm(p) <= old(pm(p))
 //@   loop 1
+//@     complete [all_iterations_no_early_exit]
 //@     assigns stream(p.s.r), p.buf
 //@     invariant [well_formed] pw(p) && p.s == old(p.s) && p.s.r == old(p.s.r)
 //@     invariant [measure_does_not_grow] pm(p) <= old(pm(p)) && pm(p) <= lold(pm(p))
@@ -183,22 +187,27 @@ package nexus
 //@   ensures [well_formed] pw(p)
 //@   ensures [measure_does_not_grow] pm(p) <= old(pm(p))
 //@   loop 1
+//@     complete [all_iterations_no_early_exit]
 //@     invariant [well_formed] pw(p) && p.s == old(p.s) && p.s.r == old(p.s.r)
 //@     invariant [measure_does_not_grow] pm(p) <= old(pm(p)) && pm(p) <= lold(pm(p))
 //@     decreases pm(p) + (stopdata ? 0 : 1)
 //@   loop 2
+//@     complete [all_iterations_no_early_exit]
 //@     invariant [well_formed] pw(p) && p.s == old(p.s) && p.s.r == old(p.s.r)
 //@     invariant [measure_does_not_grow] pm(p) <= old(pm(p)) && pm(p) <= lold(pm(p))
 //@     decreases pm(p) + (stopdimensions ? 0 : 1)
 //@   loop 3
+//@     complete [all_iterations_no_early_exit]
 //@     invariant [well_formed] pw(p) && p.s == old(p.s) && p.s.r == old(p.s.r)
 //@     invariant [measure_does_not_grow] pm(p) <= old(pm(p)) && pm(p) <= lold(pm(p))
 //@     decreases pm(p) + (stopformat ? 0 : 1)
 //@   loop 4
+//@     complete [all_iterations_no_early_exit]
 //@     invariant [well_formed] pw(p) && p.s == old(p.s) && p.s.r == old(p.s.r)
 //@     invariant [measure_does_not_grow] pm(p) <= old(pm(p)) && pm(p) <= lold(pm(p))
 //@     decreases pm(p) + (stopmatrix ? 0 : 1)
 //@   loop 5
+//@     complete [all_iterations_no_early_exit]
 //@     invariant [well_formed] pw(p) && p.s == old(p.s) && p.s.r == old(p.s.r)
 //@     invariant [measure_does_not_grow] pm(p) <= old(pm(p)) && pm(p) <= lold(pm(p))
 //@     decreases pm(p) + (stopseq ? 0 : 1)
@@ -209,14 +218,17 @@ package nexus
 //@   ensures [well_formed] pw(p)
 //@   ensures [measure_does_not_grow] pm(p) <= old(pm(p))
 //@   loop 1
+//@     complete [all_iterations_no_early_exit]
 //@     invariant [well_formed] pw(p) && p.s == old(p.s) && p.s.r == old(p.s.r)
 //@     invariant [measure_does_not_grow] pm(p) <= old(pm(p)) && pm(p) <= lold(pm(p))
 //@     decreases pm(p) + (stoptaxa ? 0 : 1)
 //@   loop 2
+//@     complete [all_iterations_no_early_exit]
 //@     invariant [well_formed] pw(p) && p.s == old(p.s) && p.s.r == old(p.s.r)
 //@     invariant [measure_does_not_grow] pm(p) <= old(pm(p)) && pm(p) <= lold(pm(p))
 //@     decreases pm(p) + (stopdimensions ? 0 : 1)
 //@   loop 3
+//@     complete [all_iterations_no_early_exit]
 //@     invariant [well_formed] pw(p) && p.s == old(p.s) && p.s.r == old(p.s.r)
 //@     invariant [measure_does_not_grow] pm(p) <= old(pm(p)) && pm(p) <= lold(pm(p))
 //@     decreases pm(p) + (stoplabels ? 0 : 1)
@@ -227,6 +239,7 @@ package nexus
 //@   ensures [well_formed] pw(p)
 //@   ensures [measure_does_not_grow] pm(p) <= old(pm(p))
 //@   loop 1
+//@     complete [all_iterations_no_early_exit]
 //@     invariant [well_formed] pw(p) && p.s == old(p.s) && p.s.r == old(p.s.r)
 //@     invariant [measure_does_not_grow] pm(p) <= old(pm(p)) && pm(p) <= lold(pm(p))
 //@     decreases pm(p) + (stop ? 0 : 1)
@@ -238,6 +251,7 @@ package nexus
 //@   ensures [measure_does_not_grow] pm(p) <= old(pm(p))
 //@   ensures [one_name_per_tree_string] len(treenames) == len(treestrings)
 //@   loop 1
+//@     complete [all_iterations_no_early_exit]
 //@     invariant [one_name_per_tree_string] len(treenames) == len(treestrings)
 //@     invariant [well_formed] pw(p) && p.s == old(p.s) && p.s.r == old(p.s.r)
 //@     invariant [measure_does_not_grow] pm(p) <= old(pm(p)) && pm(p) <= lold(pm(p))
@@ -261,4 +275,5 @@ package nexus
 //@   call fmt.Sprintf@L4 [translate_line_is_identifier_then_label] a0 == "   %s %s\n" && len(a1) == 2 && translate
 //@   call (*tree.Tree).Rename [the_clone_is_renamed_with_the_identifier_table] translate && a1 == taxLabelsMap && a0 == renameTree && a0 != t.Tree
 //@   loop 2
+//@     complete [all_iterations_no_early_exit]
 //@     step [identifiers_are_handed_out_in_sequence] next(nbTax) == nbTax + (has(taxLabelsMap, tip) == atHead(has(taxLabelsMap, tip)) ? 0 : 1)
